@@ -443,6 +443,16 @@ def run(ctx: Ctx) -> None:
                    f"{t0}04.000000 045 RP --- 01:145038 18:111111 --:------ 000C 006 0104008808AE",     # ... now said to be 34:002222: refused
                    f"{t0}05.000000 045 RP --- 01:145038 18:111111 --:------ 000C 006 0304008808AE",     # 34:002222 is zone 03's sensor
                    f"{t0}06.000000 045  I --- 01:145038 --:------ 01:145038 30C9 003 0107D0"], "crafted-role-conflicts", "crafted", {}))
+    # the controller names, as a zone's SENSOR, a device that is already a child of that zone in another role: an actuator TRV while another sensor is
+    # known (a changed sensor: refused, the sensor stays), a relay of an electric zone (not a device a zone sensor can be: refused)
+    hists.append(([f"{t0}00.000000 045 RP --- 01:145038 18:111111 --:------ 0005 004 00080600",      # zones 01, 02: radiator valves
+                   f"{t0}01.000000 045 RP --- 01:145038 18:111111 --:------ 0005 004 000B0400",      # zone 02 is electric
+                   f"{t0}02.000000 045 RP --- 01:145038 18:111111 --:------ 000C 006 01080011B207",     # zone 01 actuator: 04:111111
+                   f"{t0}03.000000 045 RP --- 01:145038 18:111111 --:------ 000C 006 0104008B640E",     # zone 01 sensor: 34:222222
+                   f"{t0}04.000000 045 RP --- 01:145038 18:111111 --:------ 000C 006 01040011B207",     # ... now said to be the TRV: refused
+                   f"{t0}05.000000 045 RP --- 01:145038 18:111111 --:------ 000C 006 020B003608D5",     # zone 02 actuator: relay 13:133333
+                   f"{t0}06.000000 045 RP --- 01:145038 18:111111 --:------ 000C 006 0204003608D5",     # ... said to be its sensor: refused
+                   f"{t0}07.000000 045  I --- 01:145038 --:------ 01:145038 30C9 003 0107D0"], "crafted-sensor-is-a-child-already", "crafted", {}))
     hists += [(base, "verbatim", name, cfg) for name, base, cfg in syss]
     for lines, kind, name, cfg in hists:
         eav = rng.random() < 0.5 if not kind.startswith("crafted") else False
